@@ -192,17 +192,39 @@ def main(argv):
     c.sample({"case": lines[1 + n_ex + 7]})
     c.sample({"case": lines[-1]})
 
+    # ---------------- the implementation on all cases (time and memory limited)
+    impl_ok = True
+    rc, out, err = run_lines_limited(impl, lines, timeout=300, mem_mb=2048)
+    if len(out) != len(lines):
+        impl_ok = False
+        cul = find_culprit(impl, lines)
+        if cul is not None:
+            bad, st1, e1 = cul
+            width, keep, delims, line = cases[bad - 1]
+            c.violation("no-progress: wrap_lines(%r, width=%d, keep=%s, delims=%r) does not return (%s within 5 s / 2 GiB) %s" % (line, width, keep, delims, st1, e1),
+                        {"op": "wrap_lines", "kind": "hang-or-crash", "line_hex": hx(line), "line": line.decode("utf-8", "replace"), "width": width, "keep": keep,
+                         "delims": delims, "status": st1, "how": "harness hx_wrap: " + lines[bad]})
+        else:
+            c.broken.append("harness hx_wrap died: rc=%s %s" % (rc, err[-300:]))
+
     # ---------------- correspondence: extracted model vs implementation
     if drv is None:
         c.broken.append("extraction/driver build failed: " + dlog[-600:])
+    elif impl_ok:
+        rc1, mout_w, e1 = run_lines(drv, lines)
+        if len(mout_w) != len(lines):
+            c.broken.append("model driver died: " + e1[-300:])
+        else:
+            dis = [(l, a, b) for l, a, b in zip(lines, mout_w, out) if a != b]
+            c.cov["traces_validated_against_impl"] += len(lines)
+            if dis:
+                l, a, b = min(dis, key=lambda d: len(d[0]))
+                c.broken.append("correspondence wrap_lines model vs preprocess/foldfilter_main.cc: %d disagreement(s); smallest: case %r model=%r impl=%r" % (len(dis), l[:200], a[:200], b[:200]))
     else:
-        correspond(c, "wrap_lines model vs preprocess/foldfilter_main.cc", drv, impl, lines)
+        c.broken.append("correspondence wrap_lines model vs preprocess/foldfilter_main.cc: implementation did not answer all cases")
 
     # ---------------- direct property oracle on the implementation's pieces
-    rc, out, err = run_lines(impl, lines)
-    if len(out) != len(lines):
-        c.broken.append("harness hx_wrap died: rc=%s %s" % (rc, err[-300:]))
-    else:
+    if impl_ok:
         for k, o in zip(cases[:n_valid], out[1:1 + n_valid]):
             width, keep, delims, line = k
             r = parse_w(o)
@@ -235,6 +257,7 @@ def main(argv):
             c.broken.append("model driver died on tool cases: %s" % err[-300:])
             mout = None
     tdis = 0
+    hangs = 0
     for i, (width, keep, delims, child, inp) in enumerate(tcases):
         argv = [tool, "-w", str(width)]
         if not keep:
@@ -242,12 +265,15 @@ def main(argv):
         if delims is not None:
             argv += ["-d", "".join(chr(x) for x in delims)]
         argv.append(os.path.join(CHILDREN, "child_%s.py" % child))
-        st, so, se = run_tool(argv, stdin=inp, timeout=20)
+        if hangs >= 3:
+            break
+        st, so, se = run_limited(argv, stdin=inp, timeout=10, mem_mb=2048)
         c.count(("tool", width, keep, tuple(delims or ()), child, inp), nontrivial=len(inp) > 0, bucket="tool/" + child)
         rep = {"op": "tool", "argv": argv[1:-1] + ["child_%s.py" % child], "stdin_hex": hx(inp), "stdin": inp.decode("utf-8", "replace"),
                "status": st, "stdout_hex": hx(so), "stderr": se.decode("utf-8", "replace")[-300:]}
         if st == "timeout":
-            c.violation("hang: foldfilter did not finish within 20 s", rep)
+            hangs += 1
+            c.violation("hang: foldfilter did not finish within 10 s", rep)
             continue
         if st != 0:
             c.violation("tool-failed: foldfilter exit status %s on valid UTF-8 input with a line-preserving child" % st, rep)
